@@ -147,7 +147,8 @@ func genDep(r *c.Rng, backends []*backend, n int) depSpec {
 		switch {
 		case i > 0 && r.Chance(0.35):
 			u.Rewrite = true
-			u.From = []string{fmt.Sprintf(`^(.*)\.rw%d\.test$`, i), fmt.Sprintf(`\.rw%d\.test`, i), `^([a-z]+)\.rw\.test$`}[r.Intn(3)]
+			// every pattern matches the whole Host (the template is a constant backend address), anchored or not
+			u.From = []string{fmt.Sprintf(`^(.*)\.rw%d\.test$`, i), fmt.Sprintf(`.*\.rw%d\.test.*`, i), `^([a-z]+)\.rw\.test$`}[r.Intn(3)]
 		case i > 1 && r.Chance(0.15):
 			u.From = d.Ups[0].From // duplicate static host: the later registration wins
 			if d.Ups[0].Rewrite {
@@ -219,8 +220,71 @@ var clientHeaderPool = []hdr{
 }
 var connTricks = []string{"X-Forwarded-Email", "x-forwarded-user, X-Forwarded-Groups", "Cookie", "Authorization", "Sso-Signature", "kid", "Gap-Signature"}
 
+// the upstream the driver EXPECTS to handle a host (used only to aim the generators; judgement is Coq's)
+func (w *world) routeGuess(h string) int {
+	for i := len(w.spec.Ups) - 1; i >= 0; i-- {
+		if !w.spec.Ups[i].Rewrite && w.spec.Ups[i].From == h {
+			return i
+		}
+	}
+	for i, u := range w.spec.Ups {
+		if u.Rewrite && w.fromRe[i].MatchString(h) {
+			return i
+		}
+	}
+	return -1
+}
+
+func (w *world) emailFor(i int) string {
+	u := w.spec.Ups[i]
+	if len(u.Addrs) > 0 {
+		return u.Addrs[0]
+	}
+	if len(u.Doms) > 0 && u.Doms[0] != "*" {
+		return "carol@" + u.Doms[0]
+	}
+	return "a@example.com"
+}
+
+// a session in order for upstream i on this host, then (usually) exactly one thing wrong or due
+func (w *world) aimedSession(r *c.Rng, i int, host string, vnow int64) *vsession {
+	s := &vsession{Slug: w.ownSlug(i), Email: w.emailFor(i), User: "carol", Access: "at", RefreshTok: "rt", RefreshDL: vnow + 3600*sec,
+		LifetimeDL: vnow + 80000*sec, ValidDL: vnow + 300*sec, Groups: [][]string{{}, {"g1"}, {"g1", "x,y"}}[r.Intn(3)], Upstream: host}
+	switch r.Intn(16) {
+	case 0:
+		s.LifetimeDL = vnow - 3600*sec
+	case 1, 2:
+		s.RefreshDL = vnow - 600*sec
+	case 3, 4:
+		s.ValidDL = vnow - 120*sec
+	case 5:
+		s.Slug = []string{"google", "okta", "corp"}[r.Intn(3)]
+	case 6:
+		s.Upstream = w.hosts[r.Intn(len(w.hosts))]
+	case 7:
+		s.Email = emails[r.Intn(len(emails))]
+	case 8:
+		s.RefreshDL = vnow - 600*sec
+		s.RefreshTok = ""
+	case 9:
+		s.RefreshDL = vnow - 600*sec
+		g := vnow - []int64{60, 1800, w.spec.G - 60, w.spec.G + 60}[r.Intn(4)]*sec
+		s.Grace = &g
+	case 10:
+		s.ValidDL = vnow - 120*sec
+		s.RefreshDL = vnow - 600*sec
+	}
+	return s
+}
+
 func (w *world) genReq(r *c.Rng, vnow int64) *reqSpec {
 	rs := &reqSpec{Method: "GET", Host: w.hosts[r.Intn(len(w.hosts))], Target: pathPool[r.Intn(len(pathPool))]}
+	if r.Chance(0.7) {
+		rs.Host = w.routable(r)
+	}
+	if r.Chance(0.35) {
+		rs.Target = []string{"/x/page", "/", "/api/v1/items", "/x/thing", "/open/thing", "/favicon.ico"}[r.Intn(6)]
+	}
 	if r.Chance(0.25) {
 		rs.Target += []string{"?a=1", "?next=/open/thing", "?x=%41&y"}[r.Intn(3)]
 	}
@@ -262,7 +326,10 @@ func (w *world) genReq(r *c.Rng, vnow int64) *reqSpec {
 		rs.CLText = "0"
 	}
 	rs.Sess = genSession(r, w, rs.Host, vnow)
-	switch r.Intn(14) {
+	if i := w.routeGuess(rs.Host); i >= 0 && r.Chance(0.7) {
+		rs.Sess = w.aimedSession(r, i, rs.Host, vnow)
+	}
+	switch r.Intn(16) {
 	case 0: // no cookie
 		rs.Sess = nil
 	case 1:
@@ -566,7 +633,7 @@ func main() {
 			}
 		}
 		flush = w.spec.Ups[i].Flush
-		cs, _ := w.run(rs, genAns(r, 0.5), genBScript(r, flush), vnow, nil, "")
+		cs, _ := w.run(rs, genAns(r, 0.7), genBScript(r, flush), vnow, nil, "")
 		cases = append(cases, cs)
 	}
 	for _, w := range worlds {
